@@ -1654,6 +1654,40 @@ int32_t tls13ParseServerHello(ssl_t *ssl,
         psTraceIntInfo("Can't support requested cipher: %d\n", cipher);
         return MATRIXSSL_ERROR;
     }
+    /* RFC 8446, 4.1.3: "A client which receives a cipher suite that was not
+       offered MUST abort the handshake with an illegal_parameter alert" */
+    if (ssl->tls13ClientCipherSuitesLen > 0)
+    {
+        psSize_t k;
+
+        for (k = 0; k < ssl->tls13ClientCipherSuitesLen; k++)
+        {
+            if (ssl->tls13ClientCipherSuites[k] == cipher)
+            {
+                break;
+            }
+        }
+        if (k == ssl->tls13ClientCipherSuitesLen)
+        {
+            ssl->err = SSL_ALERT_ILLEGAL_PARAMETER;
+            psTraceIntInfo("Server chose a cipher we did not offer: %d\n",
+                    cipher);
+            return MATRIXSSL_ERROR;
+        }
+    }
+    /* RFC 8446, 4.2.11: "Clients MUST verify that ... a cipher suite
+       indicating a Hash associated with the PSK" was selected. The key
+       schedule below reads the early secret computed with the PSK's hash;
+       with another hash it would start from a buffer nobody wrote. */
+    if (ssl->sec.tls13UsingPsk && ssl->sec.tls13ChosenPsk != NULL &&
+            tls13GetPskHmacAlg(ssl->sec.tls13ChosenPsk) !=
+            tls13CipherIdToHmacAlg(cipher))
+    {
+        ssl->err = SSL_ALERT_ILLEGAL_PARAMETER;
+        psTraceErrr("ServerHello cipher suite does not fit the hash of " \
+                "the selected PSK\n");
+        return MATRIXSSL_ERROR;
+    }
     if (compressionMethod != 0)
     {
         ssl->err = SSL_ALERT_ILLEGAL_PARAMETER;
